@@ -787,6 +787,9 @@ def plan_C09(ctx):
     gen_corpus(ctx, 3 if ctx.quick else 4, "cexp", "C09")
     for sl in slices:
         ctx.tlc("MC_GenNameAddr", "MC_GenNameAddr_%s.cfg" % sl, workers=8, min_records=1000)
+    if not ctx.quick:   # deep variants: three-element lists over all ten values and all separators, every triple of the 18 header lines
+        for sl in ("lists", "inmsg"):
+            ctx.tlc("MC_GenNameAddr", simple_cfg("gna_%s_deep.cfg" % sl, ["OffsMod = 65536", 'Part = "%s"' % sl, "Deep = TRUE"], ["Emit"]), workers=8, min_records=10000, timeout=6000)
     ctx.nontrivial = ctx.records
     ctx.need("generated name-addr values / lists executed on the real parsers", ctx.records, 50000)
 
